@@ -267,6 +267,21 @@ def cached_ops_elsewhere(an: Analysis):
     return out
 
 
+def _stored_expiration(v: ast.AST) -> bool:
+    """The value kept on the cache object is the `expiration` parameter itself in both situations (a number / None)."""
+    from ..kinds import eval_expr
+
+    if is_name(v, "expiration"):
+        return True
+    if not any(is_name(x, "expiration") for x in ast.walk(v)):
+        return False
+    out = []
+    for val in (10.0, None):
+        r = eval_expr(v, lambda e, val=val: val if is_name(e, "expiration") else NOVALUE)
+        out.append(r is not NOVALUE and type(r) is type(val) and r == val)
+    return all(out)
+
+
 def check(an: Analysis) -> None:
     prog = an.prog
     sibs = [CacheFn(an, *s) for s in SIBLINGS]
@@ -448,6 +463,9 @@ def check(an: Analysis) -> None:
                 return d.origins(x)
 
             if s.is_async:
+                # `result = await shield(task); return result`: the value reaching the return
+                if isinstance(v, ast.Name) and len(vals_ := miss_sc.reaching_values(r, v.id)) == 1:
+                    v = unwrap(vals_[0])
                 ok = isinstance(v, ast.Await) and isinstance(unwrap(v.value), ast.Call) and an.callee(fi, unwrap(v.value)) == "asyncio.shield" and "call:asyncio.AbstractEventLoop.create_task" in origins_here(unwrap(unwrap(v.value).args[0]))
             else:
                 ok = v is not None and f"call:{fi.cls.qualname}._function" in origins_here(v)
@@ -521,8 +539,8 @@ def check(an: Analysis) -> None:
                         return True
                     if isinstance(e, ast.Name) and fn.outer is init and e.id == "expiration" and e.id not in fn.param_names() and not any(isinstance(x, ast.Name) and x.id == e.id and isinstance(x.ctx, ast.Store) for x in fn.own_nodes()):
                         return True  # closure over __init__'s parameter
-                    if isinstance(e, ast.Attribute) and is_name(e.value, "self") and any(is_name(v, "expiration") for v in ci.attr_val.get(e.attr, [])):
-                        return True  # self._expiration stored from the parameter
+                    if isinstance(e, ast.Attribute) and is_name(e.value, "self") and (vv_ := ci.attr_val.get(e.attr, [])) and all(_stored_expiration(v) for v in vv_):
+                        return True  # self._expiration stored from the parameter (as it is, or `expiration or None`: falsy = never)
                     return False
 
                 def env_fn(e: ast.AST, has=has):
@@ -603,5 +621,22 @@ def check(an: Analysis) -> None:
         ob.inst(fi, parent(node), what)
         if not ok:
             ob.fail(fi, parent(node), f"unexpected operation on the cache store ({what})")
-    if n < 20:
+    # entries kept anywhere else than in that one store: the limit (and the eviction order) is per store, so every further store
+    # adds up to `limit` live entries of its own (one store per receiver, per key kind, ...)
+    entry_q = prog.cls("helpers.caching._CacheEntry").qualname
+    cache_classes_ = {prog.cls("helpers.caching._SyncCache").qualname, prog.cls("helpers.caching._AsyncCache").qualname}
+    elsewhere = 0
+    for fi in prog.scan_functions():
+        if fi.cls is None or fi.cls.qualname not in cache_classes_:
+            continue
+        dfi = Deps(prog, fi)
+        for st in fi.own_nodes():
+            if isinstance(st, ast.Assign) and isinstance(unwrap(dfi.inline(st.value)), ast.Call) and an.callee(fi, unwrap(dfi.inline(st.value))) == entry_q:
+                for t in st.targets:
+                    if isinstance(t, ast.Subscript):
+                        ob.inst(fi, st, "entry store")
+                        if dotted(t.value) != "self._cached":
+                            elsewhere += 1
+                            ob.fail(fi, st, f"an entry is kept in `{stmt_text(t.value)}`, not in the cache object's single `_cached` store: `limit` bounds each store on its own, so with several stores (one per receiver ...) more than `limit` entries stay alive and hits are answered outside the `limit` most recently used keys")
+    if n < 20 and not elsewhere:
         raise AnalysisError(f"only {n} uses of _cached found (confirmed: 28)")
